@@ -69,6 +69,10 @@ use std::{
 pub const COMP: u128 = 12;
 pub const COMP_CANCEL: u128 = 19;
 pub const P: u64 = 1_000_003;
+/// Size of the request queue given to the rtc servers: more than a case can have ops (`parse` accepts at most
+/// 400), so that a call never waits for a slot there.  The remote functions have the queue size 1 fixed by
+/// `rfn`; the model's schedule respects that bound (`Run/RunRtc.v`, "the bounded request channel").
+const REQ_QUEUE: usize = 512;
 const SRV_ID: u32 = 1_000_000;
 const ERR_ID: u32 = 1_000_001;
 
@@ -924,7 +928,7 @@ async fn server_side(c: Case, ctl: Arc<Ctl>, mut tx: Out, err_tx: tokio::sync::m
     match c.flav {
         0 => {
             use rtc::{Server, ServerBase};
-            let (mut server, client) = ObjVServer::<_, codec::Default>::new(Tgt { v: 0, ctl: ctl.clone() }, 16);
+            let (mut server, client) = ObjVServer::<_, codec::Default>::new(Tgt { v: 0, ctl: ctl.clone() }, REQ_QUEUE);
             server.set_on_req_receive_error(pol());
             send_clients!(client, Item::V, send_v);
             drop(tx);
@@ -934,7 +938,7 @@ async fn server_side(c: Case, ctl: Arc<Ctl>, mut tx: Out, err_tx: tokio::sync::m
         }
         5 => {
             use rtc::{Server, ServerBase};
-            let (mut server, client) = ObjMServer::<_, codec::Default>::new(Tgt { v: 0, ctl: ctl.clone() }, 16);
+            let (mut server, client) = ObjMServer::<_, codec::Default>::new(Tgt { v: 0, ctl: ctl.clone() }, REQ_QUEUE);
             server.set_on_req_receive_error(pol());
             send_clients!(client, Item::M, send_m);
             drop(tx);
@@ -945,7 +949,7 @@ async fn server_side(c: Case, ctl: Arc<Ctl>, mut tx: Out, err_tx: tokio::sync::m
         1 => {
             use rtc::{ServerBase, ServerRef};
             let t = Tgt { v: 0, ctl: ctl.clone() };
-            let (mut server, client) = ObjRServerRef::<_, codec::Default>::new(&t, 16);
+            let (mut server, client) = ObjRServerRef::<_, codec::Default>::new(&t, REQ_QUEUE);
             server.set_on_req_receive_error(pol());
             send_clients!(client, Item::R, send_r);
             drop(tx);
@@ -956,7 +960,7 @@ async fn server_side(c: Case, ctl: Arc<Ctl>, mut tx: Out, err_tx: tokio::sync::m
         2 => {
             use rtc::{ServerBase, ServerRefMut};
             let mut t = Tgt { v: 0, ctl: ctl.clone() };
-            let (mut server, client) = ObjMServerRefMut::<_, codec::Default>::new(&mut t, 16);
+            let (mut server, client) = ObjMServerRefMut::<_, codec::Default>::new(&mut t, REQ_QUEUE);
             server.set_on_req_receive_error(pol());
             send_clients!(client, Item::M, send_m);
             drop(tx);
@@ -967,7 +971,7 @@ async fn server_side(c: Case, ctl: Arc<Ctl>, mut tx: Out, err_tx: tokio::sync::m
         3 => {
             use rtc::{ServerBase, ServerShared};
             let t = Arc::new(Tgt { v: 0, ctl: ctl.clone() });
-            let (mut server, client) = ObjRServerShared::<_, codec::Default>::new(t.clone(), 16);
+            let (mut server, client) = ObjRServerShared::<_, codec::Default>::new(t.clone(), REQ_QUEUE);
             server.set_on_req_receive_error(pol());
             send_clients!(client, Item::R, send_r);
             drop(tx);
@@ -978,7 +982,7 @@ async fn server_side(c: Case, ctl: Arc<Ctl>, mut tx: Out, err_tx: tokio::sync::m
         4 => {
             use rtc::{ServerBase, ServerSharedMut};
             let t = Arc::new(tokio::sync::RwLock::new(Tgt { v: 0, ctl: ctl.clone() }));
-            let (mut server, client) = ObjMServerSharedMut::<_, codec::Default>::new(t.clone(), 16);
+            let (mut server, client) = ObjMServerSharedMut::<_, codec::Default>::new(t.clone(), REQ_QUEUE);
             server.set_on_req_receive_error(pol());
             send_clients!(client, Item::M, send_m);
             drop(tx);
